@@ -14,6 +14,7 @@
 #include <stdio.h>
 #include <stdlib.h>
 #include <string.h>
+#include <sys/resource.h>
 #include <sys/stat.h>
 #include <sys/types.h>
 #include <time.h>
@@ -353,6 +354,17 @@ static void msleep(int ms)
   while (nanosleep(&ts, &ts) < 0 && errno == EINTR) {}
 }
 
+/* a child that dies of SIGSEGV, SIGABRT, SIGQUIT ... normally leaves a core file, and its wait status then carries the "core dumped" bit on
+ * top of the signal number: let that happen (the file lands in the scratch working directory) */
+static void allow_core(void)
+{
+  struct rlimit rl;
+  if (getrlimit(RLIMIT_CORE, &rl) == 0 && rl.rlim_cur != rl.rlim_max) {
+    rl.rlim_cur = rl.rlim_max;
+    setrlimit(RLIMIT_CORE, &rl);
+  }
+}
+
 static void autonomous(int gap, const struct vc_cmd *steps, int n)
 {
   static char chunk[65536];
@@ -422,6 +434,7 @@ static void autonomous(int gap, const struct vc_cmd *steps, int n)
       case 'K': {
         sigset_t ss;
         a_report();
+        allow_core();
         signal(c->a, SIG_DFL);
         sigemptyset(&ss);
         sigaddset(&ss, c->a);
@@ -478,6 +491,7 @@ void vchild_run(int ctl, int image, char *const *argv, char *const *envp)
       case 'K': {
         if (probe) { reply(ST_READY, 0, NULL, 0); break; }
         sigset_t s;
+        allow_core();
         signal(c.a, SIG_DFL);
         sigemptyset(&s);
         sigaddset(&s, c.a);
